@@ -850,6 +850,28 @@ def main(tier):
             elif real["problems"]:
                 chk.add_failure(key, {"what": "; ".join(real["problems"][:4])}, None)
     chk.extra["extra_objects_judged_on_real_output_only"] = n_extra
+    # ---- a kind to_dot does not know, in a tree on which optimize() itself would raise (incomparable bounds, a function atom that
+    # rejects the constant of `fn & eq`): the unknown kind is reported with ValueError, whether or not the optimized cluster is asked for
+    import datetime as _dtm
+
+    from predicate import eq_p as _eq, fn_p as _fn, ge_p as _ge, has_length_p as _hl, le_p as _le, regex_p as _rx, to_dot as _to_dot
+    from predicate.standard_predicates import has_key_p as _hk
+
+    window = lambda: _ge(_dtm.datetime(2020, 1, 1)) & _le(_dtm.date(2021, 1, 1))  # noqa: E731  optimize raises TypeError (datetime vs date)
+    upper3 = lambda: _fn(str.isupper) & _eq(3)  # noqa: E731  optimize raises TypeError (str.isupper(3))
+    unk_raise = [("window & has_length_p(2)", lambda: window() & _hl(2)), ("has_key_p('a') | window", lambda: _hk("a") | window()), ("upper3 | regex_p('^a')", lambda: upper3() | _rx("^a")),
+                 ("~(has_length_p(1) & upper3)", lambda: ~(_hl(1) & upper3()))]
+    for desc, th in unk_raise:
+        for show in (False, True):
+            chk.evaluations += 1
+            try:
+                _to_dot(th(), show_optimized=show)
+                got = "returned a graph"
+            except ValueError:
+                continue
+            except Exception as e:  # noqa: BLE001
+                got = f"raised {type(e).__name__}: {e}"[:160]
+            chk.add_failure({"input": desc, "show_optimized": show, "lazy_bound_in_caller": False}, {"what": "a tree with a kind to_dot does not know must be reported with ValueError; " + got}, None)
     for fam in sorted(fam_count):
         chk.add_corr(f"dot/{fam}", fam_count[fam], dis.get(fam, []))
     chk.extra["cases_by_family"] = fam_count
